@@ -6,6 +6,7 @@ import (
 	"os"
 	"path/filepath"
 	"sort"
+	"strconv"
 	"strings"
 	"time"
 
@@ -291,9 +292,56 @@ func sanitizeTag(s string) string {
 	return string(b)
 }
 
+// conformAll runs every translator-validation unit natively and compares the observations.
+func (r *report) conformAll(outs []*unitOutcome) {
+	base := filepath.Join(r.verif, "replay", r.spec.Property)
+	for _, o := range outs {
+		if !o.unit.Conform || o.fatal != "" || o.solver != "z3" {
+			continue
+		}
+		for i := range o.results {
+			res := &o.results[i]
+			dir := filepath.Join(base, fmt.Sprintf("conform-%s-%d", o.unit.Name, i))
+			if err := writeReplay(r.verif, r.repo, o.unit, dir, res.Fn, "conform", res.Params, map[string]uint64{}, map[string]any{"replay_mode": "conformance"}); err != nil {
+				r.incon("unit %s: cannot write conformance package: %v", o.unit.Name, err)
+				continue
+			}
+			_, _, out, _ := runReplay(dir, 5*time.Minute)
+			var native []string
+			for _, l := range strings.Split(out, "\n") {
+				if strings.HasPrefix(l, "VERIF-NOTE: ") {
+					if s, err := strconv.Unquote(strings.TrimPrefix(l, "VERIF-NOTE: ")); err == nil {
+						native = append(native, s)
+					}
+				}
+			}
+			if len(native) == 0 {
+				r.incon("unit %s [%s]: conformance run produced no native observations (see %s/replay.out)", o.unit.Name, paramStr(res.Params), dir)
+				continue
+			}
+			if len(native) != len(res.Notes) {
+				r.incon("unit %s [%s]: TRANSLATOR DISAGREEMENT: %d observations in the engine, %d natively", o.unit.Name, paramStr(res.Params), len(res.Notes), len(native))
+				continue
+			}
+			bad := 0
+			for k := range native {
+				if native[k] != res.Notes[k] {
+					if bad == 0 {
+						r.incon("unit %s [%s]: TRANSLATOR DISAGREEMENT at observation %d: engine %q, native %q", o.unit.Name, paramStr(res.Params), k, res.Notes[k], native[k])
+					}
+					bad++
+				}
+			}
+			r.conformed += len(native) - bad
+			if len(r.samples) < 14 && len(native) > 0 {
+				r.samples = append(r.samples, map[string]any{"translator_validation": o.unit.Name, "observation_engine_and_native": native[0]})
+			}
+		}
+	}
+}
+
 func (r *report) replayAll() {
 	base := filepath.Join(r.verif, "replay", r.spec.Property)
-	os.RemoveAll(base)
 	for i := range r.pend {
 		p := &r.pend[i]
 		dir := filepath.Join(base, fmt.Sprintf("%s-%s-%d", p.unit.Name, sanitizeTag(p.v.Tag), i))
